@@ -93,7 +93,11 @@ theorem rrLoop_out (s : St) (x : String) (fuel : Nat) (i : Int) : (s.rrLoop x fu
     split
     · rfl
     · split
-      · rfl
+      · split
+        · rfl
+        · split
+          · rfl
+          · rw [ih]
       · simp only []
         split
         · split
